@@ -19,7 +19,7 @@ sys.path.insert(0, os.path.dirname(os.path.abspath(__file__)))
 import vsgenv  # noqa: E402,F401
 import hooks  # noqa: E402
 from abstraction import Interner  # noqa: E402
-from runfix import parse_args  # noqa: E402
+from runfix import parse_args, expand_skip  # noqa: E402
 
 from vsg import apply_rules, config  # noqa: E402
 
@@ -59,7 +59,7 @@ def run(text, args, work, name="t.vhd", deep=False, shuffle=None, repeat=False, 
     obs = {"status": "ok", "exit": None}
     try:
         with contextlib.redirect_stdout(out), contextlib.redirect_stderr(out):
-            cla = parse_args(["-f", tmp] + args)
+            cla = parse_args(["-f", tmp] + expand_skip(args, work))
             oConfig = config.New(cla)
             res = apply_rules.apply_rules(cla, oConfig, (0, tmp))
             obs["exit"] = bool(res[0])
@@ -67,6 +67,8 @@ def run(text, args, work, name="t.vhd", deep=False, shuffle=None, repeat=False, 
     except SystemExit as e:
         obs["status"] = "exit"
         obs["exit"] = bool(e.code)
+        if "usage:" in out.getvalue():
+            raise RuntimeError("scenario arguments rejected by VSG's argument parser: %s\n%s" % (args, out.getvalue()[-300:]))
     except RunTimeout:
         obs["status"] = "hang"
         full = traceback.format_exc()
